@@ -47,7 +47,7 @@ INVALID_OPS = [
     "bad_density_threshold", "bad_zero_charge_on_point", "bad_orders_negative", "bad_transform_shape", "bad_atom", "bad_atom_case", "bad_file",
     "bad_moment_orders", "bad_sph_labels",
 ]
-UPDATE_OPS = ["upd_coeffs", "upd_exps", "upd_coord", "upd_exps_inplace", "upd_coeffs_inplace", "upd_coord_inplace", "upd_bad_coeffs", "upd_bad_exps", "upd_scramble_returned"]
+UPDATE_OPS = ["upd_coeffs", "upd_exps", "upd_coord", "upd_exps_inplace", "upd_coeffs_inplace", "upd_coord_inplace", "upd_bad_coeffs", "upd_bad_exps", "upd_scramble_returned", "upd_zero_coeffs"]
 
 
 def gen_cases(tier, seed):
@@ -498,6 +498,33 @@ def run_history(case, pool, mode, viols, pass_name):
                     viols.append(cm.viol("[%s] after the caller overwrote arrays that earlier calls had returned, probe %d gives a different result: %s" % (pass_name, q_, why),
                                          "returned_array_shared", op=name))
                     break
+            rec.append((o, None, None, None))
+            continue
+        if name == "upd_zero_coeffs":
+            # coefficients that cannot be normalised (all zero): if the renormalisation REJECTS them (raises), the shell's
+            # normalisation must be what it was before the call ("whether it returns or raises"); either way the old
+            # coefficients are put back and renormalised afterwards, and the shell must be unit-normalised again
+            s_ = pool["basis"][o["shell"] % len(pool["basis"])]
+            old_c = np.array(s_.coeffs)
+            with np.errstate(all="ignore"):
+                try:
+                    s_.coeffs = np.zeros_like(old_c)
+                    before_ = mi.digest(np.array(s_.norm_cont))
+                    try:
+                        s_.assign_norm_cont()
+                    except Exception as exc_:  # noqa: BLE001
+                        if mi.digest(np.array(s_.norm_cont)) != before_:
+                            viols.append(cm.viol("[%s] assign_norm_cont() raised %s for coefficients it cannot normalise but had already overwritten the shell's normalisation" % (pass_name, type(exc_).__name__),
+                                                 "rejected_renormalisation_modified_shell", op=name))
+                finally:
+                    s_.coeffs = old_c
+                    for t_ in pool["basis"]:
+                        if t_ is s_ or np.shares_memory(t_.coeffs, s_.coeffs):
+                            t_.assign_norm_cont()
+                S_ = cm.call(overlap_integral, [s_])
+            evals += 1
+            if isinstance(S_, np.ndarray) and not float(np.abs(np.diag(S_) - 1).max()) <= 1e-8:
+                viols.append(cm.viol("[%s] after restoring the coefficients and renormalising, the shell's overlap diagonal deviates from 1 by %.3e" % (pass_name, float(np.abs(np.diag(S_) - 1).max())), "renormalisation", op=name))
             rec.append((o, None, None, None))
             continue
         if name in ("upd_bad_coeffs", "upd_bad_exps"):
